@@ -40,6 +40,10 @@ class FieldDatatype:
     gfapy.ArgumentError
       If **datatype** is not a valid datatype for tags.
     """
+    if fieldname in self.positional_fieldnames:
+      raise gfapy.RuntimeError(
+        "Cannot set the datatype of {}\n".format(fieldname)+
+        "The datatype of a positional field cannot be changed")
     if self._is_predefined_tag(fieldname):
       if self.get_datatype(fieldname) != datatype:
         raise gfapy.RuntimeError(
